@@ -681,7 +681,7 @@ func main() {
 		} else {
 			downCase(s, r, p, v, conf, sk, how, "down-"+ver(v))
 		}
-		if (!thorough && i%4 == 1) || (thorough && i%8 == 1) { // neighbour family on a fresh frame of moderate size
+		if (!thorough && i%6 == 1) || (thorough && i%10 == 1) { // neighbour family on a fresh frame of moderate size
 			o2 := framefmt.ValidDataOpt(r)
 			if o2.FRMLen > 60 {
 				o2.FRMLen = r.Intn(61)
@@ -689,7 +689,7 @@ func main() {
 			q := dataFrame(r, o2)
 			q.MACPayload.(*lorawan.MACPayload).FHDR.FCtrl.ACK = i%2 == 0
 			fam := q.MHDR.MType == lorawan.UnconfirmedDataUp || q.MHDR.MType == lorawan.ConfirmedDataUp
-			family(s, r, q, fam, vers[(i/4)%2], counter(r), dr, ch, key(r), key(r), i)
+			family(s, r, q, fam, vers[(i/2)%2], counter(r), dr, ch, key(r), key(r), i)
 		}
 		if i%10 == 3 { // malformed stream
 			q := dataFrame(r, framefmt.ValidDataOpt(r))
